@@ -383,6 +383,7 @@ def case_rules(case):
         want_sub = "Unique megacomplex"
     elif kind == "exclusive_combined":
         md["megacomplex"]["guide2"] = {"type": "clp-guide", "dimension": "time", "target": "s1"}
+        md["megacomplex"]["guide3"] = {"type": "clp-guide", "dimension": "time", "target": "s2"}
         md["dataset"]["d1"]["megacomplex"] = case["order"]
         md["dataset"]["d1"]["megacomplex_scale"] = ["ms.1"] * len(case["order"])
         want_sub = "Exclusive megacomplex"
@@ -457,7 +458,8 @@ def run(run: core.Run):
         rules.append({"base": "decay_full", "kind": "unique_twice_different_labels", "order": list(order)})
     rules.append({"base": "decay_full", "kind": "unique_same_label_twice"})
     rules.append({"base": "decay_full", "kind": "unique_artifact_twice"})
-    for order in (["m1", "guide2"], ["guide2", "m1"], ["m1", "m3", "guide2"]):
+    # an exclusive megacomplex next to other types, next to another megacomplex of its own type, and listed twice
+    for order in (["m1", "guide2"], ["guide2", "m1"], ["m1", "m3", "guide2"], ["guide2", "guide3"], ["guide3", "guide2"], ["guide2", "guide2"]):
         rules.append({"base": "decay_full", "kind": "exclusive_combined", "order": order})
     rules.append({"base": "decay_full", "kind": "exclusive_global_combined"})
     for f in ("labels", "frequencies", "rates"):
